@@ -373,7 +373,7 @@ def main():
 
 # symbolic clause (last label component) -> native failure ids that witness it
 CLAUSE_TO_IDS = {
-  'bound': ['bound'], 'drop_only_at_limit': ['drop_only_at_limit'], 'drop_counted': ['drop_counted'],
+  'bound': ['bound'], 'accepted_only_with_room': ['bound'], 'drop_only_at_limit': ['drop_only_at_limit'], 'drop_counted': ['drop_counted'],
   'appended_or_untouched': ['order_exactly_once'], 'appends': ['order_exactly_once'], 'prepends': ['order_exactly_once'],
   'jumps_the_queue_without_disturbing_it': ['order_exactly_once'], 'never_dropped': ['order_exactly_once'],
   'queue_kept_otherwise': ['rerouted_not_lost'], 'queue_emptied_after_reinjection': ['rerouted_not_lost', 'order_exactly_once'],
